@@ -555,6 +555,10 @@ def t_templates(tier):
     T.append(("def tfun(a: Tuple[{t0}, {t1}]) -> Tuple[{t0}, {t1}]:\n    b = a\n    return b\n", {"t0": ["bool", "Qint[2]"], "t1": ["bool", "Qint[2]"]}))
     T.append(("def tfun({sig}) -> {rt}:\n    a = {f}(a, {y})\n    return a\n",
               {"sig": ["a: Qint[2], b: Qint[2]", "a: Qint[4], b: Qint[2]"], "rt": ["Qint[4]"], "f": ["max", "min"], "y": ["b", "2", "a + 1"]}))
+    T.append(("def tfun({sig}) -> {rt}:\n    c = a\n    for i in range(4):\n        c = c + (i {bop} {k})\n    return c\n",
+              {"sig": ["a: Qint[4], b: Qint[2]"], "rt": ["Qint[4]"], "bop": ["^", "|", "&", "+", "-", "*"], "k": ["1", "2", "3"]}))
+    T.append(("def tfun({sig}) -> {rt}:\n    return a + ({x} {bop} {k})\n",
+              {"sig": ["a: Qint[4], b: Qint[2]"], "rt": ["Qint[4]"], "x": ["6", "5"], "bop": ["^", "|", "&"], "k": ["3", "4"]}))
     T.append(("def tfun(a: Tuple[{t0}, {t1}], c: bool) -> Tuple[{t0}, {t1}]:\n    b = ({x}, {y})\n    return {r}\n",
               {"t0": ["bool"], "t1": ["bool"], "x": ["a[1]", "c", "not a[0]"], "y": ["a[0]", "c and a[1]"], "r": ["b", "(b if c else a)", "(b[1], b[0])"]}))
     T.append(("def tfun(a: Tuple[{t0}, {t1}], c: bool) -> {t1}:\n    b = a\n    return b[1]\n", {"t0": ["bool", "Qint[2]"], "t1": ["bool", "Qint[2]"]}))
@@ -725,6 +729,10 @@ def m_templates(tier):
     R = ["t, u", "t, u != d", "a != b, t != d", "u, t", "t and u, t", "a != b, u", "u != d, t"]
     T = [("def tfun(a: bool, b: bool, c: bool, d: bool) -> Tuple[bool, bool]:\n    t = {e1}\n    u = {e2}\n{mid}    return {r}\n",
           {"e1": E1, "e2": E2, "mid": MID, "r": R})]
+    # a plain copy of a computed value, the copy then overwritten in terms of itself, next to another temporary that read the original
+    T.append(("def tfun(a: bool, b: bool, c: bool, d: bool) -> Tuple[bool, bool]:\n    x = {e1}\n    t = {e2}\n    y = x\n    y = {upd}\n    z = {e3}\n    return {r}\n",
+              {"e1": ["a and b", "a != b", "a or c"], "e2": ["x or c", "x and d", "x != c"], "upd": ["not y", "y != c", "y and d"],
+               "e3": ["t and d", "t != a", "t or b"], "r": ["(y, z)", "(z, y)", "(y, t)", "(x, y)"]}))
     # an ARGUMENT overwritten, then conditionally overwritten again (the conditional merges the old and the new value)
     T.append(("def tfun(a: bool, b: bool, c: bool, d: bool) -> bool:\n    a = {e1}\n    if {cond}:\n        a = {e2}\n    return {r}\n",
               {"e1": ["b or c", "b and d", "not b", "b ^ c"], "cond": ["c", "d", "b and c", "not c"], "e2": ["not b", "a and d", "b ^ d", "not a"],
